@@ -81,10 +81,12 @@ def ic_pde(d, B, m, wkind, fshape, via):
                         [LU + "initial_condition_apply"] + (["jinns.loss._LossPDE:LossPDENonStatio.evaluate"] if via != "apply" else []))
 
 
-def norm(kind, d, S, Bt, m, via):
+def norm(kind, d, S, Bt, m, via, all_outputs=False):
+    """all_outputs: the solution is the whole m-component output (one Monte-Carlo integral over samples and components)"""
     time = kind == "nonstatio"
+    mo = m if all_outputs else 1
     def build():
-        ss = jnp.s_[0:1]
+        ss = jnp.s_[0:mo]
         net = Net("Nn", "nonstatio_PDE" if time else "statio_PDE", d + (1 if time else 0), m, slice_solution=ss)
         def fn(th, ns, ts, L, w):
             params = net.params(th)
@@ -105,7 +107,7 @@ def norm(kind, d, S, Bt, m, via):
         def spec(th, ns, ts, L, w, wrong=False):
             n = net.jet(th)
             def integral(tpt):
-                vals = [n(0, tpt + [ns[s, l] for l in range(d)]) for s in range(S)]
+                vals = [n(q, tpt + [ns[s, l] for l in range(d)]) for s in range(S) for q in range(mo)]
                 return L[()] * mean(vals)
             if time:
                 v = mean([(integral([ts[i, 0]]) - 1) ** 2 for i in range(Bt)])
@@ -116,7 +118,7 @@ def norm(kind, d, S, Bt, m, via):
             return arr(lambda _: w[()] * v, ())
         return dict(fn=fn, spec=spec, canary=lambda *x: spec(*x, wrong=True),
                     inputs=[Inp("th", (1,)), Inp("ns", (S, d)), Inp("ts", (Bt, 1)), Inp("L", (), "pos"), Inp("w", ())])
-    return EqObligation(f"C05/normalization_loss_apply/ensures[{kind},d={d},S={S},Bt={Bt},m={m},via={via}]", build,
+    return EqObligation(f"C05/normalization_loss_apply/ensures[{kind},d={d},S={S},Bt={Bt},m={m},via={via}{',solution=all_outputs' if all_outputs else ''}]", build,
                         [LU + "normalization_loss_apply"] + (["jinns.loss._LossPDE:LossPDEStatio.evaluate"] if via != "apply" else []))
 
 
@@ -187,6 +189,7 @@ def obligations(tier):
                 for Bt in ((1,) if kind == "statio" else Bs):
                     obs.append(norm(kind, d, S, Bt, 1, "apply"))
             obs.append(norm(kind, d, 2, 2, 1, "evaluate"))
+            obs.append(norm(kind, d, 2, 2, 2, "apply", all_outputs=True))
     full = slice(0, None)
     for kind in ("ODE", "statio", "nonstatio"):
         for B in Bs:
